@@ -136,7 +136,11 @@ Apply(pre, c) ==
               \cup (IF e.typed.open THEN {} ELSE e.typed.errs)
   IN [seq |-> seq2, pairs |-> pairs2, ret |-> e.ret, size |-> size,
       hard |-> hard,                                   \* non-empty: the call must fail with one of these ...
-      soft |-> IF e.typed.open THEN e.typed.errs ELSE {}, \* ... or (unspecified region) may fail with one of these
+      \* ... or (unspecified region) may fail with one of these. With a key type that knows several schemes a
+      \* secp256k1 entry in the candidate may shadow an ed25519 signer's key: the library may refuse to sign.
+      soft |-> (IF e.typed.open THEN e.typed.errs ELSE {})
+               \cup (IF KBase(c.kt) = "comb" /\ c.spk.scheme = "ed" /\ HasKey(pairs2, K_secp256k1)
+                     THEN {"SigningError"} ELSE {}),
       overflow |-> overflow, idErr |-> idErr, sizeErr |-> size > MaxSize,
       typedErr |-> ~e.typed.open /\ e.typed.errs # {}]
 
@@ -164,7 +168,7 @@ BuildFold(calls, seq, pairs) ==
 \* size rule of C09 for the builder: refuse above 300, may refuse within 8 bytes of the limit, nothing smaller
 BuilderSlack == 8
 
-Build(calls, spk, fault, siglen) ==
+Build(kt, calls, spk, fault, siglen) ==
   LET spkKey == PkKeyOf(spk.scheme)
       f == BuildFold(calls, <<1>>, <<>>)
       \* user entries under id / the signer's public-key key are overwritten; their typing is unspecified
@@ -179,6 +183,8 @@ Build(calls, spk, fault, siglen) ==
               \cup (IF fault = 1 THEN {"SigningError"} ELSE {})
               \cup (IF size > MaxSize THEN {"ExceedsMaxSize"} ELSE {})
       soft == (UNION {tys[i].errs : i \in {j \in 1..Len(tys) : tys[j].open}})
+              \cup (IF KBase(kt) = "comb" /\ spk.scheme = "ed" /\ HasKey(pairs2, K_secp256k1)
+                    THEN {"SigningError"} ELSE {})
               \cup (IF size > MaxSize - BuilderSlack /\ size <= MaxSize THEN {"ExceedsMaxSize"} ELSE {})
   IN [seq |-> f.seq, pairs |-> pairs2, size |-> size, hard |-> hard, soft |-> soft]
 
